@@ -20,7 +20,7 @@ TECHNIQUE = ('round-trip and differential testing over Hypothesis-generated hist
              'the Python class must give byte-identical pickles; Python pickles are loaded by C '
              'in-process and C pickles by a PURE_PYTHON peer process, whose re-dump must again be '
              'byte-identical; '
-             'trees whose leaves are instances of a subclass of the family's leaf class are round-tripped as well')
+             'trees whose leaves are instances of a subclass of the leaf class of the family are round-tripped as well')
 RULE = ('a case is a configuration + history + tail history.  Non-trivial: the container is multi-leaf '
         'or in embedded one-leaf form, with at least one prior deletion.  Distinct = distinct case JSON.')
 ASSUMPTIONS = ['float values are float32-exact (rounding differences belong to C13)',
